@@ -2,7 +2,7 @@
 """Adds the 'history' note to the round-4 seeds' meta.json (ids Cxx-G / Cxx-H)."""
 import json, os
 H = {
-"C04-G": "not caught by C04, caught by C05: the change lets two services own one (host, prefix) pair, which is C05's statement; C04's reference router has no notion of two owners (a deliberate limit: section 6)",
+"C04-G": "missed at first by C04 (C05 caught it: two owners of one pair); new detour in C04: an intruder claiming the same bindings is still waiting for its slow target when the rightful service is deployed - its deploy must come to nothing, else routing depends on the order of commands",
 "C04-H": "missed at first (no redeploy that keeps the hosts and changes only the prefixes); new detour: the service is first deployed on the same hosts below another prefix",
 "C06-H": "missed at first (no fault while saving the state); new layer TestVF_C06_SaveFault makes the state file's place unusable before one more command: what the command reports must be true",
 "C09-H": "missed at first (probe answers of one virtual instant reached the proxy microseconds apart, and two targets rarely changed together); the harness's probe transport now hands answers of one instant over together (spin rendezvous), and the new layer TestVF_C09_Simultaneous flips drawn subsets of 4-8 targets every probe round (3 of 3 quick runs catch it on a loaded machine)",
